@@ -607,6 +607,36 @@ def r2_records(chk):
     chk.decide(elem_from_symbol and from_block,
                "C08.R2", f"{yx.key}:consumes-symbol-and-coords", yx.where(), "element from a.symbol, coordinates from block.coords",
                "yield_from_xyz does not take the element from the symbol column and the coordinates from the block")
+    # which symbols are *not* looked up as elements: only the dummy marker.  The tests on the way to `Element.get(symbol)` are
+    # tabulated over every member of Element (a table of dummy spellings written as one string makes `in` a substring test:
+    # "B" is inside "Bq", "U" inside "Du" - boron and uranium are read back as Unknown)
+    from ..canon import path_conditions
+    from ..truth import Unknown, evaluate
+    from ..util import innermost_stmt
+
+    gets = [c for c in walk_no_nested(yx.node) if isinstance(c, ast.Call) and norm(c.func) == "Element.get" and c.args and _from_symbol(c.args[0])]
+    if gets:
+        g0 = gets[0]
+        pcs = [t for t in path_conditions(yx.node, innermost_stmt(yx.node, g0)) if any(norm(x).endswith(".symbol") for x in ast.walk(t))]
+        members = [n for n in prog.enum_members(prog.cls("molli.chem.atom:Element")) if n != "Unknown"]
+        lost = []
+        for sym in members:
+            def lookup(n, sym=sym):
+                if isinstance(n, ast.Attribute) and n.attr == "symbol":
+                    return sym
+                if isinstance(n, ast.Name):
+                    try:
+                        return prog.const_eval(yx.module, n)
+                    except AnalysisError:
+                        raise Unknown(n.id)
+                return NotImplemented
+            try:
+                if not all(evaluate(t, lookup) for t in pcs):
+                    lost.append(sym)
+            except Unknown as u:
+                raise AnalysisError(f"{yx.key}: the test that separates dummy symbols from elements (`{short(pcs[0], 50)}`) cannot be tabulated: {u}")
+        chk.decide(not lost, "C08.R2", f"{yx.key}:every-element-symbol-is-looked-up", yx.where(g0), f"all {len(members)} element symbols reach Element.get",
+                   f"the symbols {lost[:8]} never reach Element.get (`{short(pcs[0], 60) if pcs else ''}` sends them to the dummy branch): these elements are read back as Unknown")
     hdr = [s for s in walk_no_nested(rx.node) if isinstance(s, ast.Assign) and norm(s.targets[0]) == "n_atoms"]
     chk.decide(bool(hdr) and norm(hdr[0].value) == "int(line)", "C08.R2", f"{rx.key}:count-line", rx.where(hdr[0] if hdr else None), "n_atoms = int(first line)",
                "read_xyz does not take the atom count from the first line of the record")
